@@ -138,6 +138,7 @@ def run(ck, fb):
     r17j(ck, fb)
     r17l(ck, fb)
     r17m(ck, fb)
+    r17n(ck, fb)
     ck.borrow('rules.c01', {'R01w': 'R17k'}, 'a session that expired stays expired across a restart or a snapshot install: the console refuses its token')
 
 
@@ -598,3 +599,61 @@ def r17m(ck, fb, R='R17m'):
                            '%s judges a %s it has computed (%s), not the one of the request: grants are matched against something the tables were not '
                            'written for' % ('::'.join(nm.split('::')[-2:]), want, cfg.fmt_desc(d)), 'the caller\'s own %s' % want)
     ck.floor(R, 'path / method arguments handed down the matcher chain', m, 8)
+
+
+def r17n(ck, fb, R='R17n'):
+    ck.rule(R, '"refused without a VALID session": a session (and an API token, a captcha) is a cache entry with a deadline, and the read that the '
+               'login middleware goes through decides validity itself - DirectCacheManager::get_valid_value answers with the stored value only on '
+               'paths that passed a comparison of the entry\'s `expire` with the clock saying "not yet" (or with -1 saying "never"). The periodic '
+               'sweep is no substitute: it runs once a second and removes an entry only when expire < now at the tick that pops its key, so an '
+               'entry whose deadline equals that second stays in the map for ever - without the check at read time an expired console session '
+               'keeps every route its roles grant')
+    from rn.facts import op_const
+    b = ck.body('rnacos::cache::core::DirectCacheManager::get_valid_value', R)
+    if not b:
+        return
+    tn = Taint(b, call_src=lambda t: re.search(r'now_second|now_millis|SystemTime::now', cfg.callee_name(t) or '') is not None)
+    live = set()
+    ncmp = 0
+    for (s0, d0, lab0, t0) in cfg.switch_edges(b):
+        d = cfg.describe_operand(b, t0['discr'])
+        neg = False
+        while d['k'] == 'un' and d['op'] == 'Not':
+            neg = not neg
+            d = cfg.describe_operand(b, d['a'])
+        if d['k'] != 'bin' or d['op'] not in ('Lt', 'Le', 'Gt', 'Ge', 'Eq', 'Ne'):
+            continue
+        ea, eb = cfg.origin_fields(b, d['a'])[-1:] == ['expire'], cfg.origin_fields(b, d['b'])[-1:] == ['expire']
+        if ea == eb:
+            continue
+        other = d['b'] if ea else d['a']
+        op = d['op'] if ea else {'Lt': 'Gt', 'Le': 'Ge', 'Gt': 'Lt', 'Ge': 'Le'}.get(d['op'], d['op'])
+        pol = cfg.edge_polarity(t0, lab0)
+        if pol is None:
+            continue
+        if neg:
+            pol = not pol
+        holds = {'Lt': {'<'}, 'Le': {'<', '='}, 'Gt': {'>'}, 'Ge': {'>', '='}, 'Eq': {'='}, 'Ne': {'<', '>'}}[op]
+        if not pol:
+            holds = {'<', '=', '>'} - holds
+        c = op_const(other)
+        if tn.op_tainted(other):
+            ncmp += 1
+            if '<' not in holds:            # expire < now excluded: not expired
+                live.add((s0, d0, lab0))
+        elif c is not None and str(c.get('v')) == '-1':
+            if '>' not in holds:            # expire <= -1: never expires
+                live.add((s0, d0, lab0))
+    # blocks that give the answer a value other than a literal None
+    answers = []
+    for (kind, bb, j, node) in b.defs.get(0, []):
+        if kind == 'stmt' and node['rv']['k'] == 'agg' and node['rv'].get('variant') == 'None':
+            continue
+        answers.append(bb)
+    ck.floor(R, 'places where get_valid_value answers with a value', len(answers), 1)
+    free = cfg.reach_from(b, [0], blocked_edges=live)
+    bad = [bb for bb in answers if bb in free]
+    ck.require(not bad, R, 'get_valid_value:deadline-checked-at-read', b.where(bad[0]) if bad else b.where(),
+               'get_valid_value can answer with the stored value on a path that has not compared the entry\'s deadline with the clock (%d such comparisons '
+               'in the function): an entry the sweep did not remove - deadline on the second of the tick - is valid for ever; an expired console session, '
+               'API token or captcha is accepted' % ncmp, 'every answer is behind "expire >= now" or "expire <= -1"')
